@@ -86,6 +86,9 @@ class Token:
 
     def __eq__(self, other):
         if isinstance(other, str):
+            # A quoted string is never punctuation: "}" is not a closing brace.
+            if self._token_type is TokenTypes.LITERAL_STRING:
+                return False
             if self._token_type.has_string():
                 return self._content == other
             else:
@@ -136,10 +139,19 @@ class Token:
         return self.file_name
 
     @property
+    def mark(self):
+        """
+        The text of the token where it can act as punctuation or as an
+        operator. The content of a quoted string never does.
+        """
+        if self._token_type is TokenTypes.LITERAL_STRING:
+            return None
+        return self._content
+
+    @property
     def is_binop(self):
         return (self.is_a(TokenTypes.COMPARE)
-                or self.content in '+-*/%^'
-                or self.content in ('and', 'or'))
+                or self.mark in ('+', '-', '*', '/', '%', '^', 'and', 'or'))
 
     @property
     def line_number(self):
@@ -163,10 +175,10 @@ class Token:
             '/': 6,
             '%': 6,
             '^': 7
-        }.get(self.content, -1)
+        }.get(self.mark, -1)
 
     @property
     def assoc(self):
-        if self.content in ('not', '^'):
+        if self.mark in ('not', '^'):
             return Assoc.RIGHT
         return Assoc.LEFT
